@@ -283,7 +283,11 @@ func oracleC11(f *sessionFam, w *World, res *Result) []Violation {
 			if !r.Returned && f.drained {
 				l.add("handler-returns", ctx, fmt.Sprintf("%s: handler of %s request #%d still blocked after all clients were gone for %v", r.Client, r.Method, r.ID, f.grace))
 			}
-			// a pending poll is answered at the latest when the session closes
+			// a pending poll is answered at the latest when the session closes: one that was still unanswered
+			// when the run was wound up, long after its session had closed, never was
+			if ce := closeT[a]; ce != nil && r.Method == "GET" && r.WindUp && r.NWH == 0 && r.T0 < ce.T && ce.Seq < drainSeqOf(w) && drainTimeOf(w)-ce.T >= 100*time.Millisecond && (sp == nil || len(sp.Raw) == 0) {
+				l.add("pending-poll-answered-at-close", "never", fmt.Sprintf("%s: poll #%d was pending when the session closed at %v (%s) and was never answered", r.Client, r.ID, ce.T, ce.S))
+			}
 			if ce := closeT[a]; ce != nil && r.Method == "GET" && !r.Aborted && r.NWH >= 1 && r.T0 <= ce.T {
 				if wh := w.Evs[r.SeqWH-1]; wh.T > ce.T {
 					l.add("pending-poll-answered-at-close", "", fmt.Sprintf("%s: poll #%d was pending when the session closed at %v but was answered only at %v", r.Client, r.ID, ce.T, wh.T))
@@ -509,7 +513,7 @@ func oracleC12(f *sessionFam, w *World, res *Result) []Violation {
 		sidAlias[s] = a
 	}
 	for _, r := range w.resps {
-		if r.Method != "GET" || r.Hijacked || r.h3 != nil || r.Aborted || r.Client == "prober" {
+		if r.Method != "GET" || r.Hijacked || r.h3 != nil || (r.Aborted && !r.WindUp) || r.Client == "prober" {
 			continue
 		}
 		sid, ok := pollingReq(r)
@@ -522,6 +526,9 @@ func oracleC12(f *sessionFam, w *World, res *Result) []Violation {
 			continue
 		}
 		ce := closes[0]
+		if r.WindUp && (ce.Seq >= drainSeqOf(w) || drainTimeOf(w)-ce.T < 100*time.Millisecond) {
+			continue // still pending when the run was wound up, and the session had not closed (well) before that
+		}
 		start := reqSeq(w, r)
 		answeredBefore := r.SeqWH != 0 && r.SeqWH < ce.Seq
 		if start > ce.Seq || answeredBefore {
@@ -646,4 +653,18 @@ func decodedBody(r *Resp) []byte {
 		}
 	}
 	return body
+}
+
+func drainSeqOf(w *World) int {
+	for _, e := range w.evs("", "drain-start") {
+		return e.Seq
+	}
+	return 1 << 30
+}
+
+func drainTimeOf(w *World) time.Duration {
+	for _, e := range w.evs("", "drain-start") {
+		return e.T
+	}
+	return time.Duration(1<<62 - 1)
 }
